@@ -390,7 +390,7 @@ Theorem one_span_on : forall c args f a,
   let l := fst (run c args f (expand a f)) in
   exists fields,
     filter is_newspan l = [TNewSpan (a_name a) (level_of a) (a_target a) (parent_obs (a_parent a)) fields]
-    /\ (a_skip_all a = false -> map fst fields = expected_names a f)
+    /\ map fst fields = expected_names a f
     /\ filter is_feval l = map TFieldEval (flat_map eval_index (a_fields a))
     /\ filter is_peval l = match a_parent a with Some (PxHelper k) => [TParentEval k] | _ => [] end
     /\ filter is_follows l = match a_follows a with Some ks => map TFollows ks | None => [] end.
@@ -409,7 +409,7 @@ Proof.
     rewrite span_create_newspan, filter_follows_part by reflexivity.
     destruct (a_follows a) as [ks|]; [|reflexivity]. simpl.
     now rewrite filter_follows_none.
-  - intros SA. unfold expected_names. rewrite SA. unfold span_fields, sp, span_spec. simpl sp_fields.
+  - unfold expected_names. unfold span_fields, sp, span_spec. simpl sp_fields.
     rewrite map_app, flat_map_app, map_app, auto_fields_names, custom_names. reflexivity.
   - rewrite FN by (intros x; destruct x; cbv; congruence).
     unfold sp. rewrite span_create_feval, filter_follows_part by reflexivity.
@@ -427,21 +427,6 @@ Proof.
     rewrite (filter_none is_follows is_attr_eval _ ltac:(intros x; destruct x; cbv; congruence) (span_pre_attr _ _)).
     simpl. rewrite filter_follows_part by reflexivity.
     destruct (a_follows a) as [ks|]; [|reflexivity]. now rewrite filter_follows_all.
-Qed.
-
-Theorem one_span_thm : forall c args f a,
-  a_skip_all a = false ->
-  span_on c (level_of a) = true ->
-  let l := fst (run c args f (expand a f)) in
-  exists fields,
-    filter is_newspan l = [TNewSpan (a_name a) (level_of a) (a_target a) (parent_obs (a_parent a)) fields]
-    /\ map fst fields = expected_names a f
-    /\ filter is_feval l = map TFieldEval (flat_map eval_index (a_fields a))
-    /\ filter is_peval l = match a_parent a with Some (PxHelper k) => [TParentEval k] | _ => [] end
-    /\ filter is_follows l = match a_follows a with Some ks => map TFollows ks | None => [] end.
-Proof.
-  intros c args f a SA ON. destruct (one_span_on c args f a ON) as (fields & H1 & H2 & H3 & H4 & H5).
-  exists fields. auto.
 Qed.
 
 Theorem one_span_off : forall c args f a,
